@@ -37,20 +37,24 @@ def host_has_aes():
     return False
 
 
-CFG_HEADER = {"aesni": "aesni.h", "sw": "none.h", "nicpu0": "aesni_nocpuid.h"}
+CFG_HEADER = {"aesni": "aesni.h", "sw": "none.h", "nicpu0": "aesni_nocpuid.h", "aesni_wa": "aesni.h"}
+# aesni_wa: the AES-NI build as cpusupport.sh configures it for compilers without _mm_loadu_si64
+# (its last CFLAGS alternative, -DBROKEN_MM_LOADU_SI64): crypto_aesctr_aesni.c then loads the nonce
+# and the block counter through the documented work-around branch of load_si64()
+WA_FLAGS = {"crypto/crypto_aes_aesni.c": ["-maes"], "crypto/crypto_aesctr_aesni.c": ["-maes", "-DBROKEN_MM_LOADU_SI64"]}
 
 
 def build(cfg, wipe=False):
     """cfg in {'aesni', 'sw', 'nicpu0'}; returns (exe, err).  nicpu0 = the AES-NI build whose run-time
     CPU detection answers "no AES-NI" (compiled without the CPUID probe)."""
     name = "drv_aes_%s%s" % (cfg, "_wipe" if wipe else "_asan")
-    ni = cfg in ("aesni", "nicpu0")
+    ni = cfg in ("aesni", "nicpu0", "aesni_wa")
     return vlib.build_c(
         name, "drv_aes.c", SRCS_NI if ni else SRCS_SW,
         cflags=QUIET + (["-DDRV_WIPE"] if wipe else []),
         ldflags=["-lcrypto"], wraps=["malloc", "free"] if wipe else [],
         asan=not wipe, cpuconfig=os.path.join(CPUCFG, CFG_HEADER[cfg]),
-        per_file_flags=NI_FLAGS if ni else None)
+        per_file_flags=(WA_FLAGS if cfg == "aesni_wa" else NI_FLAGS) if ni else None)
 
 
 SEL_WRAPS = ["malloc", "crypto_aes_key_expand_aesni", "crypto_aes_encrypt_block_aesni", "crypto_aesctr_aesni_stream"]
@@ -67,9 +71,9 @@ def active_path(ctx, sub, exe, cfg):
     """Which implementation did the library select?  A build that silently fell back is not covered."""
     rc, lines, err = vlib.run_lines(exe, "path\n", timeout=60, env={"ASAN_OPTIONS": "detect_leaks=0"})
     got = lines[0] if lines else "<no-output rc=%d>" % rc
-    want_ni = cfg == "aesni" and host_has_aes()
+    want_ni = cfg in ("aesni", "aesni_wa") and host_has_aes()
     ctx.count("aes.path.%s.%s" % (cfg, got.replace(" ", "_")))
-    if cfg == "aesni" and not host_has_aes():
+    if cfg in ("aesni", "aesni_wa") and not host_has_aes():
         ctx.notes.append("host CPU lacks AES-NI: the aesni configuration runs its software fallback; AES-NI path NOT covered")
     if want_ni and not got.startswith("path 1"):
         ctx.fail(sub, "diff", "path",
@@ -356,7 +360,7 @@ def _run_cfg(ctx, sub, cfg, cases, mexe, slow_every=0):
     if key not in _SPEC_CACHE:
         _SPEC_CACHE[key] = run_balanced(mexe, ["spec " + c for c in cases], args=("sw",))[0]
     spec = _SPEC_CACHE[key]
-    if cfg == "aesni":
+    if cfg in ("aesni", "aesni_wa"):
         model, _ = run_balanced(mexe, cases, args=("aesni",))
     elif cases and cases[0].startswith("ctr"):
         model, _ = run_balanced(mexe, cases, args=("sw",))     # portable loop over the spec cipher
@@ -408,7 +412,7 @@ def check_aes_ctr(ctx):
         return
     allc, seen = [], set()
     cases = gen_ctr(ctx)
-    for cfg in ("aesni", "sw"):
+    for cfg in ("aesni", "sw", "aesni_wa"):
         impl = _run_cfg(ctx, sub, cfg, cases, mexe)
         if impl:
             allc += cases
@@ -420,7 +424,7 @@ def check_aes_ctr(ctx):
                "buffers; call sizes {0,1,15,16,17,31,32,33}+multi-KiB, alternating <16 / >=16 byte calls at every "
                "bytectr mod 16, positions straddling blocks 255..258 and 4100-block streams (thorough: 65535..65538 and "
                "70000 blocks); white-box seek (stream->bytectr = 16*B after init2) to B = 2^k - d, k = 8..56, crossing the "
-               "counter-byte carries in one call / several calls / with a partial block first; AES-NI build vs stream_cfg true (bulk path model), software build vs the portable loop; "
+               "counter-byte carries in one call / several calls / with a partial block first; AES-NI build (also as configured with -DBROKEN_MM_LOADU_SI64, the load_si64 work-around branch) vs stream_cfg true (bulk path model), software build vs the portable loop; "
                "both vs ctr_spec of the concatenated data per (key, nonce) epoch",
                samples=[cases[0][:160], cases[len(cases) // 2][:160]] if cases else [])
 
